@@ -905,7 +905,8 @@ class FileStorage(
             self._file.truncate(self._pos)
             self._files.flush()
             self._nextpos = 0
-            self._blob_tpc_abort()
+        # Blob files are put in place by storeBlob(), i.e. before the vote.
+        self._blob_tpc_abort()
 
     def _undoDataInfo(self, oid, pos, tpos):
         """Return the tid, data pointer, and data for the oid record at pos
